@@ -1,6 +1,7 @@
 package dkg_proposal_fsm
 
 import (
+	"bytes"
 	"errors"
 	"fmt"
 	"reflect"
@@ -407,6 +408,17 @@ func (m *DKGProposalFSM) actionMasterKeyConfirmationReceived(inEvent fsm.Event, 
 
 	if dkgProposalParticipant.Status != internal.MasterKeyAwaitConfirmation {
 		err = fmt.Errorf("cannot confirm response with {Status} = {\"%s\"}", dkgProposalParticipant.Status)
+		return
+	}
+
+	// All participants must announce the same public polynomial, otherwise the round is canceled
+	// in the same way as for mismatched master keys
+	if len(m.payload.DKGProposalPayload.PubPolyBz) != 0 && len(request.PubPolyBz) != 0 &&
+		!bytes.Equal(m.payload.DKGProposalPayload.PubPolyBz, request.PubPolyBz) {
+		for _, participant := range m.payload.DKGProposalPayload.Quorum {
+			participant.Status = internal.MasterKeyConfirmationError
+			participant.Error = requests.NewFSMError(errors.New("public polynomial is mismatched"))
+		}
 		return
 	}
 
